@@ -211,6 +211,49 @@ func (fi *FuncInfo) FactsAt(at ssa.Instruction) []Fact {
 		}
 		cur = l.call
 	}
+	// short-circuit conditions that go/ssa materialises as boolean phis
+	// (`a && b` = phi[false, b], `a || b` = phi[true, b]): a known value of the
+	// phi that excludes all constant edges implies the facts of the remaining edge
+	for round := 0; round < 4; round++ {
+		added := false
+		for f := range set {
+			ph, ok := f.V.(*ssa.Phi)
+			if !ok {
+				continue
+			}
+			k := -1
+			okShape := true
+			for i, e := range ph.Edges {
+				if b, isC := constBool(e); isC {
+					if b == f.Val {
+						okShape = false // the phi's value may stem from a constant edge
+					}
+					continue
+				}
+				if k >= 0 {
+					okShape = false
+				}
+				k = i
+			}
+			if !okShape || k < 0 {
+				continue
+			}
+			nf := normFact(ph.Edges[k], f.Val)
+			if !set[nf] {
+				set[nf] = true
+				added = true
+			}
+			for ef := range fi.EdgeFactSet(ph.Block().Preds[k], ph.Block()) {
+				if !set[ef] {
+					set[ef] = true
+					added = true
+				}
+			}
+		}
+		if !added {
+			break
+		}
+	}
 	var out []Fact
 	for f := range set {
 		out = append(out, f)
@@ -724,7 +767,7 @@ func referrersOf(v ssa.Value) []ssa.Instruction {
 // p into block b (facts at the start of p plus the branch condition).
 func (fi *FuncInfo) EdgeFactSet(p, b *ssa.BasicBlock) map[Fact]bool {
 	out := map[Fact]bool{}
-	for f := range fi.Facts()[p] {
+	for f := range fi.P.factsOf(p.Parent())[p] {
 		out[f] = true
 	}
 	if len(p.Instrs) > 0 {
